@@ -73,3 +73,48 @@ Inductive gpath (g : graph) : nat -> nat -> Prop :=
     has_edge (g_edges g) a b ->
     (visited (g_vertices g) b \/ b = g_interpreted_length g) ->
     gpath g b c -> gpath g a c.
+
+(** the transpose of an edge map, as a specification: for start [s] and
+    syllable [sid], the properties of [sid] on every edge out of [s], by
+    descending end position (None when no edge out of [s] carries [sid]) *)
+Definition transposed (es : emap) (s sid : nat) : option (list props) :=
+  match nm_find s es with
+  | None => None
+  | Some ev =>
+      match flat_map (fun esm : nat * smap =>
+                        match nm_find sid (snd esm) with Some pr => [pr] | None => [] end) (rev ev) with
+      | [] => None
+      | l => Some l
+      end
+  end.
+
+Definition index_at (ind : sindices) (s sid : nat) : option (list props) :=
+  match nm_find s ind with Some ix => nm_find sid ix | None => None end.
+
+(** last_type of the backward pass, read off the finished graph *)
+Definition last_type_of (g : graph) (far : nat) : nat :=
+  Nat.max (match nm_find far (g_vertices g) with Some t => t | None => kNormalSpelling end) kFuzzySpelling.
+
+(** ** what an edge of the finished graph may be *)
+(** a normal edge [s,e) with syllable [sid]: the span without its trailing
+    delimiters is a stored spelling; [sid] is one of the syllables it denotes
+    (not disqualified by strict spelling); the edge's type is the best type
+    with which the spelling denotes [sid]; its credibility is a stored one *)
+Definition normal_edge (P : prism) (delims : list sym) (strict : bool) (inp : str)
+           (s e sid : nat) (pr : props) : Prop :=
+  s < e /\ e <= length inp /\
+  exists ds, lookup (strip_delims delims (sub inp s (e - s))) P = Some ds /\
+    (exists d, In d ds /\ adm strict inp s e d = true /\ d_sid d = sid /\ d_type d = p_type pr) /\
+    (forall d, In d ds -> adm strict inp s e d = true -> d_sid d = sid -> p_type pr <= d_type d) /\
+    (exists d, In d ds /\ adm strict inp s e d = true /\ d_sid d = sid /\
+               c_base (p_cred pr) = d_cred d /\ c_comp (p_cred pr) = 0).
+
+(** the completion edge: from the longest tilable prefix [far] to the end of
+    the input, when the remainder begins a stored spelling denoting [sid] as a
+    normal or fuzzy spelling; [il] is the interpreted length of the graph *)
+Definition completion_edge (P : prism) (comp : bool) (inp : str) (far il : nat)
+           (s e sid : nat) (pr : props) : Prop :=
+  comp = true /\ s = far /\ far < length inp /\ e = length inp /\ il = length inp /\
+  exists k ds d, lookup k P = Some ds /\ is_prefix (skipn far inp) k = true /\ In d ds /\
+    d_sid d = sid /\ d_type d < kAbbreviation /\
+    pr = mkProps kCompletion (length inp) (mkCred (d_cred d) 1 0).
